@@ -302,6 +302,9 @@ func (r *runner) open() error {
 		}
 	}
 	for _, b := range r.blocks {
+		if b.reAdded && b.gone && !b.invalid && !seen[b.hash.Hash] {
+			b.invalid = true // out of retention, so not asserted above - but the model must know it is not stored
+		}
 		b.reAdded = false
 		if b.invalid {
 			b.forgotten = true
@@ -908,6 +911,18 @@ func checkBlockDB(c caseC16) (sum summary, err error) {
 			fmt.Printf("record %d: block #%d file %d fpos %d stored %d invalid=%v gone=%v\n", i, r.serial(b), b.file, b.fpos, b.stored, b.invalid, b.gone)
 		}
 		fmt.Printf("model curIdx=%d curPos=%d archived=%v\n", r.curIdx, r.curPos, r.archived)
+		if idx, e := os.ReadFile(dir + "/blockchain.new"); e == nil {
+			for i := 0; i+136 <= len(idx); i += 136 {
+				rec := idx[i : i+136]
+				var h [32]byte
+				copy(h[:], btc.NewSha2Hash(rec[56:136]).Hash[:])
+				ser := -1
+				if b := r.byHash[h]; b != nil {
+					ser = r.serial(b)
+				}
+				fmt.Printf("disk record %d: block #%d flags %02x file %d fpos %d blen %d\n", i/136, ser, rec[0], binary.LittleEndian.Uint32(rec[28:32]), binary.LittleEndian.Uint64(rec[40:48]), binary.LittleEndian.Uint32(rec[48:52]))
+			}
+		}
 		for _, d := range []string{dir, dir + "/oldat"} {
 			ents, _ := os.ReadDir(d)
 			for _, e := range ents {
